@@ -9,10 +9,13 @@ import Mathlib.Tactic.FieldSimp
 import Mathlib.Tactic.Ring
 import Mathlib.Tactic.FinCases
 import Mathlib.Tactic.Linarith
+import Lib.SqrtFilter
+import Lib.Rot
+import Mathlib.Logic.Equiv.Fin.Basic
 
 set_option maxHeartbeats 4000000
 set_option linter.unusedSimpArgs false
-open Gen
+open Gen Matrix
 
 namespace C11
 
@@ -127,5 +130,280 @@ theorem correct_accel_upper_zero (i j : Fin 6) (hij : i < j) :
     W_accel_mat x W y_b g omega_b std_accel std_accel_omega beta_accel_c i j = 0 := by
   fin_cases i <;> fin_cases j <;> first | (exfalso; revert hij; decide) | simp [cas_defs, cas_real]
 end correct_accel
+
+/-! ### accepted corrections never increase the covariance (under the contract of the QR factorisation)
+
+`Gen.mrp.correct_*_qr` are the REAL correction programs with the single `ca.qr` call replaced by two extra inputs
+(qrQ, qrR upper triangular) and the matrix handed to `ca.qr` exposed as the extra output `qr_arg`.  Under the contract
+qrQᵀ qrQ = 1 and qrQ · qrR = qr_arg — what a QR factorisation returns — the accepted covariance factor W⁺ satisfies
+P − W⁺W⁺ᵀ = G Gᵀ ⪰ 0 with P = W Wᵀ (W read on its lower triangle), for EVERY state, covariance factor and measurement. -/
+
+def lowerPart {k : ℕ} (W : Fin k → Fin k → ℝ) : Matrix (Fin k) (Fin k) ℝ := Matrix.of fun i j => if j ≤ i then W i j else 0
+def upperPart {k : ℕ} (R : Fin k → Fin k → ℝ) : Matrix (Fin k) (Fin k) ℝ := Matrix.of fun i j => if i ≤ j then R i j else 0
+
+@[simp] theorem e1_inl0 : (finSumFinEquiv (Sum.inl (0 : Fin 1)) : Fin (1 + 6)) = (0 : Fin 7) := by decide
+@[simp] theorem e1_inr0 : (finSumFinEquiv (Sum.inr (0 : Fin 6)) : Fin (1 + 6)) = (1 : Fin 7) := by decide
+@[simp] theorem e1_inr1 : (finSumFinEquiv (Sum.inr (1 : Fin 6)) : Fin (1 + 6)) = (2 : Fin 7) := by decide
+@[simp] theorem e1_inr2 : (finSumFinEquiv (Sum.inr (2 : Fin 6)) : Fin (1 + 6)) = (3 : Fin 7) := by decide
+@[simp] theorem e1_inr3 : (finSumFinEquiv (Sum.inr (3 : Fin 6)) : Fin (1 + 6)) = (4 : Fin 7) := by decide
+@[simp] theorem e1_inr4 : (finSumFinEquiv (Sum.inr (4 : Fin 6)) : Fin (1 + 6)) = (5 : Fin 7) := by decide
+@[simp] theorem e1_inr5 : (finSumFinEquiv (Sum.inr (5 : Fin 6)) : Fin (1 + 6)) = (6 : Fin 7) := by decide
+@[simp] theorem e2_inl0 : (finSumFinEquiv (Sum.inl (0 : Fin 2)) : Fin (2 + 6)) = (0 : Fin 8) := by decide
+@[simp] theorem e2_inl1 : (finSumFinEquiv (Sum.inl (1 : Fin 2)) : Fin (2 + 6)) = (1 : Fin 8) := by decide
+@[simp] theorem e2_inr0 : (finSumFinEquiv (Sum.inr (0 : Fin 6)) : Fin (2 + 6)) = (2 : Fin 8) := by decide
+@[simp] theorem e2_inr1 : (finSumFinEquiv (Sum.inr (1 : Fin 6)) : Fin (2 + 6)) = (3 : Fin 8) := by decide
+@[simp] theorem e2_inr2 : (finSumFinEquiv (Sum.inr (2 : Fin 6)) : Fin (2 + 6)) = (4 : Fin 8) := by decide
+@[simp] theorem e2_inr3 : (finSumFinEquiv (Sum.inr (3 : Fin 6)) : Fin (2 + 6)) = (5 : Fin 8) := by decide
+@[simp] theorem e2_inr4 : (finSumFinEquiv (Sum.inr (4 : Fin 6)) : Fin (2 + 6)) = (6 : Fin 8) := by decide
+@[simp] theorem e2_inr5 : (finSumFinEquiv (Sum.inr (5 : Fin 6)) : Fin (2 + 6)) = (7 : Fin 8) := by decide
+
+open Lean in
+macro "accept_entry " e:ident : tactic => do
+  let ce := mkIdent (e.getId.appendAfter "_cut_eq")
+  let cs := mkIdent (e.getId.appendAfter "_cut_sel")
+  let cc := mkIdent (e.getId.appendAfter "_cut__c")
+  let ca := mkIdent (e.getId.appendAfter "_cut__a")
+  `(tactic| (rw [$ce:ident, $cs:ident]; simp only [$cc:ident, $ca:ident, cas_real]; simp [*]))
+
+section correct_mag_cov
+variable (x : Fin 6 → ℝ) (W : Fin 6 → Fin 6 → ℝ) (y_b : Fin 3 → ℝ) (decl std_mag beta_mag_c : ℝ) (qrQ qrR : Fin 7 → Fin 7 → ℝ)
+open Gen.mrp.correct_mag_qr
+/-- accepted: the returned factor is the lower-right block of qrRᵀ -/
+theorem correct_mag_accept_W (h0 : error_code x W y_b decl std_mag beta_mag_c qrQ qrR = 0) :
+    W_mag_mat x W y_b decl std_mag beta_mag_c qrQ qrR
+      = (((upperPart qrR)ᵀ).submatrix finSumFinEquiv finSumFinEquiv).toBlocks₂₂ (n := Fin 1) (o := Fin 6) := by
+  ext i j
+  fin_cases i <;> fin_cases j <;> simp [W_mag_mat, toBlocks₂₂, upperPart]
+  · accept_entry W_mag_0_0
+  · simp [cas_defs, cas_real]
+  · simp [cas_defs, cas_real]
+  · simp [cas_defs, cas_real]
+  · simp [cas_defs, cas_real]
+  · simp [cas_defs, cas_real]
+  · accept_entry W_mag_1_0
+  · accept_entry W_mag_1_1
+  · simp [cas_defs, cas_real]
+  · simp [cas_defs, cas_real]
+  · simp [cas_defs, cas_real]
+  · simp [cas_defs, cas_real]
+  · accept_entry W_mag_2_0
+  · accept_entry W_mag_2_1
+  · accept_entry W_mag_2_2
+  · simp [cas_defs, cas_real]
+  · simp [cas_defs, cas_real]
+  · simp [cas_defs, cas_real]
+  · accept_entry W_mag_3_0
+  · accept_entry W_mag_3_1
+  · accept_entry W_mag_3_2
+  · accept_entry W_mag_3_3
+  · simp [cas_defs, cas_real]
+  · simp [cas_defs, cas_real]
+  · accept_entry W_mag_4_0
+  · accept_entry W_mag_4_1
+  · accept_entry W_mag_4_2
+  · accept_entry W_mag_4_3
+  · accept_entry W_mag_4_4
+  · simp [cas_defs, cas_real]
+  · accept_entry W_mag_5_0
+  · accept_entry W_mag_5_1
+  · accept_entry W_mag_5_2
+  · accept_entry W_mag_5_3
+  · accept_entry W_mag_5_4
+  · accept_entry W_mag_5_5
+/-- the lower-right block of the matrix handed to the QR routine is the (lower triangle of the) prior factor W -/
+theorem correct_mag_arg_W :
+    (((qr_arg_mat x W y_b decl std_mag beta_mag_c qrQ qrR)ᵀ).submatrix finSumFinEquiv finSumFinEquiv).toBlocks₂₂ (n := Fin 1) (o := Fin 6) = lowerPart W := by
+  ext i j
+  simp only [toBlocks₂₂, Matrix.of_apply, submatrix_apply, transpose_apply]
+  fin_cases i <;> fin_cases j <;> simp only [e1_inr0, e1_inr1, e1_inr2, e1_inr3, e1_inr4, e1_inr5, e2_inr0, e2_inr1, e2_inr2, e2_inr3, e2_inr4, e2_inr5]
+  all_goals simp only [qr_arg_mat, Matrix.of_apply, Matrix.cons_val', Matrix.cons_val_zero, Matrix.cons_val_one, Matrix.cons_val, Matrix.cons_val_fin_one]
+  all_goals simp [lowerPart, cas_defs, cas_real]
+/-- P − W⁺W⁺ᵀ is positive semidefinite and W⁺ is lower triangular -/
+theorem correct_mag_accept_cov (hQ : (Matrix.of qrQ)ᵀ * Matrix.of qrQ = 1)
+    (hQR : Matrix.of qrQ * upperPart qrR = qr_arg_mat x W y_b decl std_mag beta_mag_c qrQ qrR)
+    (h0 : error_code x W y_b decl std_mag beta_mag_c qrQ qrR = 0) :
+    (lowerPart W * (lowerPart W)ᵀ - W_mag_mat x W y_b decl std_mag beta_mag_c qrQ qrR * (W_mag_mat x W y_b decl std_mag beta_mag_c qrQ qrR)ᵀ).PosSemidef := by
+  have hA : ∀ (i : Fin 6) (j : Fin 1), qr_arg_mat x W y_b decl std_mag beta_mag_c qrQ qrR (finSumFinEquiv (m := 1) (n := 6) (Sum.inl j)) (finSumFinEquiv (Sum.inr i)) = 0 := by
+    intro i j; fin_cases i <;> fin_cases j <;> simp only [e1_inl0, e2_inl0, e2_inl1, e1_inr0, e1_inr1, e1_inr2, e1_inr3, e1_inr4, e1_inr5, e2_inr0, e2_inr1, e2_inr2, e2_inr3, e2_inr4, e2_inr5]
+    all_goals simp only [qr_arg_mat, Matrix.of_apply, Matrix.cons_val', Matrix.cons_val_zero, Matrix.cons_val_one, Matrix.cons_val, Matrix.cons_val_fin_one]
+    all_goals simp [cas_defs, cas_real]
+  have hR : ∀ (i : Fin 6) (j : Fin 1), upperPart qrR (finSumFinEquiv (m := 1) (n := 6) (Sum.inr i)) (finSumFinEquiv (m := 1) (n := 6) (Sum.inl j)) = 0 := by
+    intro i j; fin_cases i <;> fin_cases j <;> simp [upperPart]
+  obtain ⟨_, _, d⟩ := SqrtFilter.flat (M := Fin 1) (N := Fin 6) finSumFinEquiv _ _ _ hQ hQR hA hR
+  rw [correct_mag_arg_W, ← correct_mag_accept_W _ _ _ _ _ _ _ _ h0] at d
+  rw [← d, add_sub_cancel_right]
+  exact posSemidef_self_mul_conjTranspose _
+end correct_mag_cov
+
+section correct_accel_cov
+variable (x : Fin 6 → ℝ) (W : Fin 6 → Fin 6 → ℝ) (y_b : Fin 3 → ℝ) (g : ℝ) (omega_b : Fin 3 → ℝ) (std_accel std_accel_omega beta_accel_c : ℝ) (qrQ qrR : Fin 8 → Fin 8 → ℝ)
+open Gen.mrp.correct_accel_qr
+/-- accepted: the returned factor is the lower-right block of qrRᵀ -/
+theorem correct_accel_accept_W (h0 : error_code x W y_b g omega_b std_accel std_accel_omega beta_accel_c qrQ qrR = 0) :
+    W_accel_mat x W y_b g omega_b std_accel std_accel_omega beta_accel_c qrQ qrR
+      = (((upperPart qrR)ᵀ).submatrix finSumFinEquiv finSumFinEquiv).toBlocks₂₂ (n := Fin 2) (o := Fin 6) := by
+  ext i j
+  fin_cases i <;> fin_cases j <;> simp [W_accel_mat, toBlocks₂₂, upperPart]
+  · accept_entry W_accel_0_0
+  · simp [cas_defs, cas_real]
+  · simp [cas_defs, cas_real]
+  · simp [cas_defs, cas_real]
+  · simp [cas_defs, cas_real]
+  · simp [cas_defs, cas_real]
+  · accept_entry W_accel_1_0
+  · accept_entry W_accel_1_1
+  · simp [cas_defs, cas_real]
+  · simp [cas_defs, cas_real]
+  · simp [cas_defs, cas_real]
+  · simp [cas_defs, cas_real]
+  · accept_entry W_accel_2_0
+  · accept_entry W_accel_2_1
+  · accept_entry W_accel_2_2
+  · simp [cas_defs, cas_real]
+  · simp [cas_defs, cas_real]
+  · simp [cas_defs, cas_real]
+  · accept_entry W_accel_3_0
+  · accept_entry W_accel_3_1
+  · accept_entry W_accel_3_2
+  · accept_entry W_accel_3_3
+  · simp [cas_defs, cas_real]
+  · simp [cas_defs, cas_real]
+  · accept_entry W_accel_4_0
+  · accept_entry W_accel_4_1
+  · accept_entry W_accel_4_2
+  · accept_entry W_accel_4_3
+  · accept_entry W_accel_4_4
+  · simp [cas_defs, cas_real]
+  · accept_entry W_accel_5_0
+  · accept_entry W_accel_5_1
+  · accept_entry W_accel_5_2
+  · accept_entry W_accel_5_3
+  · accept_entry W_accel_5_4
+  · accept_entry W_accel_5_5
+/-- the lower-right block of the matrix handed to the QR routine is the (lower triangle of the) prior factor W -/
+theorem correct_accel_arg_W :
+    (((qr_arg_mat x W y_b g omega_b std_accel std_accel_omega beta_accel_c qrQ qrR)ᵀ).submatrix finSumFinEquiv finSumFinEquiv).toBlocks₂₂ (n := Fin 2) (o := Fin 6) = lowerPart W := by
+  ext i j
+  simp only [toBlocks₂₂, Matrix.of_apply, submatrix_apply, transpose_apply]
+  fin_cases i <;> fin_cases j <;> simp only [e1_inr0, e1_inr1, e1_inr2, e1_inr3, e1_inr4, e1_inr5, e2_inr0, e2_inr1, e2_inr2, e2_inr3, e2_inr4, e2_inr5]
+  all_goals simp only [qr_arg_mat, Matrix.of_apply, Matrix.cons_val', Matrix.cons_val_zero, Matrix.cons_val_one, Matrix.cons_val, Matrix.cons_val_fin_one]
+  all_goals simp [lowerPart, cas_defs, cas_real]
+/-- P − W⁺W⁺ᵀ is positive semidefinite and W⁺ is lower triangular -/
+theorem correct_accel_accept_cov (hQ : (Matrix.of qrQ)ᵀ * Matrix.of qrQ = 1)
+    (hQR : Matrix.of qrQ * upperPart qrR = qr_arg_mat x W y_b g omega_b std_accel std_accel_omega beta_accel_c qrQ qrR)
+    (h0 : error_code x W y_b g omega_b std_accel std_accel_omega beta_accel_c qrQ qrR = 0) :
+    (lowerPart W * (lowerPart W)ᵀ - W_accel_mat x W y_b g omega_b std_accel std_accel_omega beta_accel_c qrQ qrR * (W_accel_mat x W y_b g omega_b std_accel std_accel_omega beta_accel_c qrQ qrR)ᵀ).PosSemidef := by
+  have hA : ∀ (i : Fin 6) (j : Fin 2), qr_arg_mat x W y_b g omega_b std_accel std_accel_omega beta_accel_c qrQ qrR (finSumFinEquiv (m := 2) (n := 6) (Sum.inl j)) (finSumFinEquiv (Sum.inr i)) = 0 := by
+    intro i j; fin_cases i <;> fin_cases j <;> simp only [e1_inl0, e2_inl0, e2_inl1, e1_inr0, e1_inr1, e1_inr2, e1_inr3, e1_inr4, e1_inr5, e2_inr0, e2_inr1, e2_inr2, e2_inr3, e2_inr4, e2_inr5]
+    all_goals simp only [qr_arg_mat, Matrix.of_apply, Matrix.cons_val', Matrix.cons_val_zero, Matrix.cons_val_one, Matrix.cons_val, Matrix.cons_val_fin_one]
+    all_goals simp [cas_defs, cas_real]
+  have hR : ∀ (i : Fin 6) (j : Fin 2), upperPart qrR (finSumFinEquiv (m := 2) (n := 6) (Sum.inr i)) (finSumFinEquiv (m := 2) (n := 6) (Sum.inl j)) = 0 := by
+    intro i j; fin_cases i <;> fin_cases j <;> simp [upperPart]
+  obtain ⟨_, _, d⟩ := SqrtFilter.flat (M := Fin 2) (N := Fin 6) finSumFinEquiv _ _ _ hQ hQR hA hR
+  rw [correct_accel_arg_W, ← correct_accel_accept_W _ _ _ _ _ _ _ _ _ _ h0] at d
+  rw [← d, add_sub_cancel_right]
+  exact posSemidef_self_mul_conjTranspose _
+end correct_accel_cov
+
+/-! ### prediction: the returned MRP is in the closed unit ball and is the same rotation as the integrated one;
+    the gyro bias is carried over exactly -/
+
+/-- the shadow selection (−r/|r|² when |r|² > 1) keeps any vector in the closed unit ball -/
+theorem shadow_norm_le (b0 b1 b2 : ℝ) :
+    let n := b0 ^ 2 + b1 ^ 2 + b2 ^ 2
+    let s := fun b : ℝ => if 1 < n then -(b / n) else b
+    s b0 ^ 2 + s b1 ^ 2 + s b2 ^ 2 ≤ 1 := by
+  intro n s
+  by_cases h : 1 < n
+  · have hn : 0 < n := by linarith
+    have e : s b0 ^ 2 + s b1 ^ 2 + s b2 ^ 2 = 1 / n := by
+      simp only [s, h, if_true]
+      field_simp
+      rfl
+    rw [e, div_le_one hn]; exact h.le
+  · simp only [s, h, if_false]
+    exact not_lt.mp h
+
+section predict
+variable (t : ℝ) (x : Fin 6 → ℝ) (W : Fin 6 → Fin 6 → ℝ) (om : Fin 3 → ℝ) (sg sn dt : ℝ)
+open Gen.mrp.predict
+
+/-- the three attitude outputs are the shadow selection applied to the integrated MRP `x1_i__b` (structural, rfl) -/
+theorem predict_shadow_form :
+    let b0 := x1_0__b t x W om sg sn dt
+    let b1 := x1_1__b t x W om sg sn dt
+    let b2 := x1_2__b t x W om sg sn dt
+    let n := b0 ^ 2 + b1 ^ 2 + b2 ^ 2
+    x1_0 t x W om sg sn dt = (if 1 < n then -(b0 / n) else b0)
+    ∧ x1_1 t x W om sg sn dt = (if 1 < n then -(b1 / n) else b1)
+    ∧ x1_2 t x W om sg sn dt = (if 1 < n then -(b2 / n) else b2) := by
+  intro b0 b1 b2 n
+  have hc0 : x1_0__c t x W om sg sn dt = CasNum.lt (CasNum.ofInt 1) (CasNum.add (CasNum.add (CasNum.sq b0) (CasNum.sq b1)) (CasNum.sq b2)) := rfl
+  have hc1 : x1_1__c t x W om sg sn dt = CasNum.lt (CasNum.ofInt 1) (CasNum.add (CasNum.add (CasNum.sq b0) (CasNum.sq b1)) (CasNum.sq b2)) := rfl
+  have hc2 : x1_2__c t x W om sg sn dt = CasNum.lt (CasNum.ofInt 1) (CasNum.add (CasNum.add (CasNum.sq b0) (CasNum.sq b1)) (CasNum.sq b2)) := rfl
+  have ha0 : x1_0__a t x W om sg sn dt = CasNum.neg (CasNum.div b0 (CasNum.add (CasNum.add (CasNum.sq b0) (CasNum.sq b1)) (CasNum.sq b2))) := rfl
+  have ha1 : x1_1__a t x W om sg sn dt = CasNum.neg (CasNum.div b1 (CasNum.add (CasNum.add (CasNum.sq b0) (CasNum.sq b1)) (CasNum.sq b2))) := rfl
+  have ha2 : x1_2__a t x W om sg sn dt = CasNum.neg (CasNum.div b2 (CasNum.add (CasNum.add (CasNum.sq b0) (CasNum.sq b1)) (CasNum.sq b2))) := rfl
+  refine ⟨?_, ?_, ?_⟩
+  · rw [x1_0_sel, hc0, ha0]; simp only [cas_real, n, pow_two]; rfl
+  · rw [x1_1_sel, hc1, ha1]; simp only [cas_real, n, pow_two]; rfl
+  · rw [x1_2_sel, hc2, ha2]; simp only [cas_real, n, pow_two]; rfl
+
+/-- the predicted MRP has norm at most 1, for EVERY state, rate, step and covariance -/
+theorem predict_norm :
+    x1_0 t x W om sg sn dt ^ 2 + x1_1 t x W om sg sn dt ^ 2 + x1_2 t x W om sg sn dt ^ 2 ≤ 1 := by
+  obtain ⟨e0, e1, e2⟩ := predict_shadow_form t x W om sg sn dt
+  rw [e0, e1, e2]
+  exact shadow_norm_le _ _ _
+
+/-- … and it represents the same rotation as the integrated (pre-shadow) MRP -/
+theorem predict_same_rotation :
+    Rot.mrpMat ![x1_0 t x W om sg sn dt, x1_1 t x W om sg sn dt, x1_2 t x W om sg sn dt]
+      = Rot.mrpMat ![x1_0__b t x W om sg sn dt, x1_1__b t x W om sg sn dt, x1_2__b t x W om sg sn dt] := by
+  obtain ⟨e0, e1, e2⟩ := predict_shadow_form t x W om sg sn dt
+  rw [e0, e1, e2]
+  set b0 := x1_0__b t x W om sg sn dt
+  set b1 := x1_1__b t x W om sg sn dt
+  set b2 := x1_2__b t x W om sg sn dt
+  by_cases h : 1 < b0 ^ 2 + b1 ^ 2 + b2 ^ 2
+  · simp only [h, if_true]
+    have hn : Rot.nsq ![b0, b1, b2] = b0 ^ 2 + b1 ^ 2 + b2 ^ 2 := by simp [Rot.nsq]
+    have := Rot.mrpMat_shadow ![b0, b1, b2] (by rw [hn]; linarith)
+    rw [← this]; congr 1; funext i; fin_cases i <;> simp [hn]
+  · simp only [h, if_false]
+
+/-- the gyro-bias part of the state is carried over unchanged by prediction -/
+theorem predict_bias : x1_3 t x W om sg sn dt = x 3 ∧ x1_4 t x W om sg sn dt = x 4 ∧ x1_5 t x W om sg sn dt = x 5 := by
+  refine ⟨?_, ?_, ?_⟩ <;> simp only [cas_defs]
+end predict
+
+/-! ### initialisation: documented error codes; a failed initialisation returns the zero state -/
+section init
+variable (g_b B_b : Fin 3 → ℝ) (decl : ℝ)
+open Gen.mrp.initialize
+
+theorem init_codes : error_code g_b B_b decl ∈ ({0, 1, 2, 3} : Set ℝ) := by
+  simp only [cas_defs, cas_real]; split_ifs <;> simp
+
+open Lean in
+macro "init_entry " e:ident : tactic => do
+  let ce := mkIdent (e.getId.appendAfter "_cut_eq")
+  let cs := mkIdent (e.getId.appendAfter "_cut_sel")
+  let cc := mkIdent (e.getId.appendAfter "_cut__c")
+  `(tactic| (rw [$ce:ident, $cs:ident]; simp only [$cc:ident, cas_real]; simp [*]))
+
+theorem init_reject_zero (h : error_code g_b B_b decl ≠ 0) : x0_vec g_b B_b decl = 0 := by
+  funext i; fin_cases i <;> simp only [x0_vec, Matrix.cons_val_zero, Matrix.cons_val_one, Matrix.cons_val, Pi.zero_apply]
+  · init_entry x0_0
+  · init_entry x0_1
+  · init_entry x0_2
+  · simp [cas_defs, cas_real]
+  · simp [cas_defs, cas_real]
+  · simp [cas_defs, cas_real]
+
+/-- the initial gyro bias is zero whatever the measurements -/
+theorem init_bias_zero : x0_3 g_b B_b decl = 0 ∧ x0_4 g_b B_b decl = 0 ∧ x0_5 g_b B_b decl = 0 := by
+  refine ⟨?_, ?_, ?_⟩ <;> simp [cas_defs, cas_real]
+end init
 
 end C11
